@@ -66,11 +66,14 @@ CnfFree(c0, sel, cnf) ==
        IN /\ (ext # {}) <=> (\A j \in DOMAIN sel : ev[c.o[sel[j] + 1]])
           /\ Cardinality(proj) <= 1
 
+CnfLiteralsOK(cnf) == \A j \in DOMAIN cnf : \A q \in DOMAIN cnf[j] : cnf[j][q] # 0
 C05CnfFails(c) ==
   IF c.exc # "" THEN {"tseytin-raised:" \o c.exc}
+  \* a literal is a non-zero integer (a clause list with a 0 in it is no CNF: reported, the exactness clause needs literals)
+  ELSE IF ~CnfLiteralsOK(c.cnf) THEN {"cnf-contains-the-literal-0"}
   ELSE FailSet(<< <<"cnf-not-exact", CnfStrict(c.c, c.sel, c.cnf) \/ CnfFree(c.c, c.sel, c.cnf)>> >>)
 C05CnfDrift(c) ==
-  IF c.exc = "" /\ Dev = "" /\ ~CnfStrict(c.c, c.sel, c.cnf) /\ CnfFree(c.c, c.sel, c.cnf)
+  IF c.exc = "" /\ CnfLiteralsOK(c.cnf) /\ Dev = "" /\ ~CnfStrict(c.c, c.sel, c.cnf) /\ CnfFree(c.c, c.sel, c.cnf)
   THEN {"cnf-variable-allocation-differs-from-model"} ELSE {}
 
 AllOutputsTrueSomewhere(c) ==
@@ -78,6 +81,7 @@ AllOutputsTrueSomewhere(c) ==
   IN  InterAll([k \in DOMAIN c.o |-> tt[c.o[k]]], all) # {}
 C05SatFails(c) ==
   IF c.exc # "" THEN {"is_circuit_satisfiable-raised:" \o c.exc}
+  ELSE IF Has(c, "cnf") /\ ~CnfLiteralsOK(c.cnf) THEN {"cnf-contains-the-literal-0"}
   ELSE LET ck == DevCircuit(c.c)
            n == Len(ck.i)
            nv == Max({n, MaxVar(c.cnf), Len(c.model)})
